@@ -49,13 +49,14 @@ theorem C13_one_attempt_each (m : Method) (fd : Fd) (n : Nat) : (burst m fd n).2
   | succ n ih => simp [burst, ih]
 
 theorem burst_fill (m : Method) (fd : Fd) (n : Nat) :
-    (burst m fd n).1.fill = min (fd.fill + n) (max fd.cap fd.fill) ∧ (burst m fd n).1.cap = fd.cap := by
+    (burst m fd n).1.fill = min (fd.fill + n) (max (fd.cap - fd.empties) fd.fill) ∧ (burst m fd n).1.cap = fd.cap ∧
+    (burst m fd n).1.empties = fd.empties := by
   induction n generalizing fd with
   | zero => simp [burst]; omega
   | succ n ih =>
     simp only [burst]
-    obtain ⟨h1, h2⟩ := ih (wake m fd).1
-    rw [h1, h2]
+    obtain ⟨h1, h2, h3⟩ := ih (wake m fd).1
+    rw [h1, h2, h3]
     simp only [wake]
     split
     · simp; omega
@@ -68,16 +69,18 @@ theorem C13_byte_bounds (m : Method) (fd : Fd) (n : Nat) (hcap : 0 < fd.cap) :
     let fd0 := (drain fd).1
     (burst m fd0 n).1.fill ≤ n ∧ (0 < n → 0 < (burst m fd0 n).1.fill) := by
   simp only [drain]
-  have := (burst_fill m { fd with fill := 0 } n).1
+  have := (burst_fill m { fd with fill := 0, empties := 0 } n).1
   simp only at this
   rw [this]
   constructor
   · omega
   · intro hn; omega
 
-/-- a failed attempt means the pipe is full, so a byte is already there for the reader -/
+/-- a failed attempt means the queue is full, so something is already there for the reader (the
+descriptor is readable): bytes, or - on a datagram socket before its first drain - the zero-length
+datagram of the library's own probe -/
 theorem C13_failed_attempt_means_full (m : Method) (fd : Fd) (hcap : 0 < fd.cap)
-    (h : (wake m fd).2 ≠ .wrote) : 0 < fd.fill := by
+    (h : (wake m fd).2 ≠ .wrote) : 0 < fd.fill + fd.empties := by
   simp only [wake] at h
   split at h
   · simp at h
@@ -87,13 +90,16 @@ theorem C13_failed_attempt_means_full (m : Method) (fd : Fd) (hcap : 0 < fd.cap)
 `MSG_DONTWAIT` (their own flags are left alone) -/
 theorem C13_classify_frame (fd : Fd) :
     (classify fd).2.fill = fd.fill ∧ (classify fd).2.cap = fd.cap ∧ (classify fd).2.kind = fd.kind ∧
-    ((fd.kind = .stream ∨ fd.kind = .dgram) → (classify fd) = (.send, fd)) ∧ (fd.kind = .pipe → (classify fd).1 = .write) := by
-  obtain ⟨k, nb, fl, cp, cl⟩ := fd
+    (classify fd).2.closes = fd.closes ∧
+    (fd.kind = .stream → (classify fd) = (.send, fd)) ∧
+    (fd.kind = .dgram → (classify fd).1 = .send ∧ (classify fd).2.nonblock = fd.nonblock) ∧
+    (fd.kind = .pipe → (classify fd).1 = .write) := by
+  obtain ⟨k, nb, fl, cp, cl, em⟩ := fd
   cases k
   · simp [classify, probe]
   · simp [classify, probe]
   · simp only [classify, probe]
-    by_cases h : fl < cp <;> simp [h]
+    by_cases h : fl + em < cp <;> simp [h]
   · simp [classify, probe]
 
 /-- **C13.rejected_registration_closes_once** — when `set_flags` fails (a descriptor that is not a
@@ -103,8 +109,8 @@ by `register_raw` itself. -/
 theorem C13_rejected_registration_closes_once (fd : Fd) :
     ((prepare fd).1 = none → (prepare fd).2.closes = fd.closes + 1 ∧ fd.kind = .other) ∧
     ((prepare fd).1 ≠ none → (prepare fd).2.closes = fd.closes) := by
-  obtain ⟨k, nb, fl, cp, cl⟩ := fd
-  cases k <;> simp [prepare, probe, setFlagsOk]
+  obtain ⟨k, nb, fl, cp, cl, em⟩ := fd
+  cases k <;> simp [prepare, probe, setFlagsOk, classify]
   all_goals (try (split <;> simp))
 
 /-- closing happens through exactly one `drop` of the owning action (C01: released exactly once
@@ -112,9 +118,9 @@ by the remover; C14: released on every rejection path): one `close` per owner -/
 theorem C13_closed_once (fd : Fd) : (close fd).closes = fd.closes + 1 := rfl
 
 /-! ## non-vacuity -/
-example : (burst (classify ⟨.dgram, false, 3, 3, 0⟩).1 (classify ⟨.dgram, false, 3, 3, 0⟩).2 2).2 = [.eagain, .eagain] := by decide
-example : (burst (classify ⟨.pipe, false, 0, 2, 0⟩).1 (classify ⟨.pipe, false, 0, 2, 0⟩).2 3).2 = [.wrote, .wrote, .eagain] := by decide
+example : (burst (classify ⟨.dgram, false, 3, 3, 0, 0⟩).1 (classify ⟨.dgram, false, 3, 3, 0, 0⟩).2 2).2 = [.eagain, .eagain] := by decide
+example : (burst (classify ⟨.pipe, false, 0, 2, 0, 0⟩).1 (classify ⟨.pipe, false, 0, 2, 0, 0⟩).2 3).2 = [.wrote, .wrote, .eagain] := by decide
 /-- what the seeded slip "Write without O_NONBLOCK on a full datagram socket" would do -/
-example : (wake .write ⟨.dgram, false, 3, 3, 0⟩).2 = .blocks := by decide
+example : (wake .write ⟨.dgram, false, 3, 3, 0, 0⟩).2 = .blocks := by decide
 
 end SigHook.Pipe
